@@ -22,7 +22,8 @@ REPO = os.environ.get("TBX_REPO", "/repo")
 NIGHTLY_BIN = "/root/.rustup/toolchains/nightly-x86_64-unknown-linux-gnu/lib/rustlib/x86_64-unknown-linux-gnu/bin"
 COVT = os.path.join(VERIF, "build", "cov-target")
 COVR = os.path.join(VERIF, "build", "cov-repo-target")
-ENV = dict(os.environ, CARGO_NET_OFFLINE="true", RUSTFLAGS="-C instrument-coverage")
+ENV = dict(os.environ, CARGO_NET_OFFLINE="true", RUSTFLAGS="-C instrument-coverage",
+           LLVM_PROFILE_FILE=os.path.join(VERIF, "build", "cov", "build-%p-%m.profraw"))  # build scripts run instrumented too
 
 
 def sh(cmd, cwd=None, env=ENV, timeout=7200):
